@@ -71,6 +71,7 @@ type TcbInfoSpec struct {
 	Mods       []ModIdent
 	OmitMods   bool // omit the tdxModuleIdentities member entirely
 	TimeStyle  int  // how issueDate / nextUpdate are written: see FormatTime
+	Future     bool // add members a later schema revision might add (unknown names at every nesting depth)
 	Levels     []Level
 }
 
@@ -121,9 +122,22 @@ func (s *TcbInfoSpec) JSON() string {
 		}
 		mods = `"tdxModuleIdentities":[` + strings.Join(ms, ",") + `],`
 	}
-	return fmt.Sprintf(`{"id":%q,"version":%s,"issueDate":%q,"nextUpdate":%q,"fmspc":"%s","pceId":"%s","tcbType":0,"tcbEvaluationDataNumber":15,"tdxModule":{"mrsigner":"%s","attributes":"%s","attributesMask":"%s"},%s"tcbLevels":[%s]}`,
+	return future(s.Future, fmt.Sprintf(`{"id":%q,"version":%s,"issueDate":%q,"nextUpdate":%q,"fmspc":"%s","pceId":"%s","tcbType":0,"tcbEvaluationDataNumber":15,"tdxModule":{"mrsigner":"%s","attributes":"%s","attributesMask":"%s"},%s"tcbLevels":[%s]}`,
 		s.ID, s.Version, FormatTime(s.IssueDate, s.TimeStyle), FormatTime(s.NextUpdate, s.TimeStyle), s.Fmspc, s.PceID,
-		s.MrSigner, s.Attr, s.AttrMask, mods, strings.Join(ls, ","))
+		s.MrSigner, s.Attr, s.AttrMask, mods, strings.Join(ls, ",")))
+}
+
+// future adds members with unknown names at every nesting depth of a document (what a later, additive revision of the
+// schema looks like to today's reader).
+func future(on bool, doc string) string {
+	if !on {
+		return doc
+	}
+	doc = strings.ReplaceAll(doc, `{"tcb":{`, `{"futureLevelMember":"v","tcb":{"futureTcbMember":7,`)
+	doc = strings.ReplaceAll(doc, `{"svn":`, `{"futureComponentMember":true,"svn":`)
+	doc = strings.ReplaceAll(doc, `"tdxModule":{`, `"tdxModule":{"futureModuleMember":"z",`)
+	doc = strings.ReplaceAll(doc, `{"id":"TDX_`, `{"futureIdentityMember":[1],"id":"TDX_`)
+	return `{"futureFirstMember":{"x":[1,2,{"y":null}]},` + doc[1:len(doc)-1] + `,"futureLastMember":[]}`
 }
 
 // HonestTcbInfo: one UpToDate level equal to the platform's values.
@@ -154,12 +168,13 @@ type QeIDSpec struct {
 	IsvProdID  string // JSON number text
 	Levels     []IsvLevel
 	TimeStyle  int
+	Future     bool // add unknown members at every nesting depth
 }
 
 func (s *QeIDSpec) JSON() string {
-	return fmt.Sprintf(`{"id":%q,"version":%s,"issueDate":%q,"nextUpdate":%q,"tcbEvaluationDataNumber":15,"miscselect":"%s","miscselectMask":"%s","attributes":"%s","attributesMask":"%s","mrsigner":"%s","isvprodid":%s,"tcbLevels":%s}`,
+	return future(s.Future, fmt.Sprintf(`{"id":%q,"version":%s,"issueDate":%q,"nextUpdate":%q,"tcbEvaluationDataNumber":15,"miscselect":"%s","miscselectMask":"%s","attributes":"%s","attributesMask":"%s","mrsigner":"%s","isvprodid":%s,"tcbLevels":%s}`,
 		s.ID, s.Version, FormatTime(s.IssueDate, s.TimeStyle), FormatTime(s.NextUpdate, s.TimeStyle),
-		s.Misc, s.MiscMask, s.Attr, s.AttrMask, s.MrSigner, s.IsvProdID, isvLevels(s.Levels))
+		s.Misc, s.MiscMask, s.Attr, s.AttrMask, s.MrSigner, s.IsvProdID, isvLevels(s.Levels)))
 }
 
 // HonestQeID matches the given QE report exactly with full masks.
